@@ -120,7 +120,7 @@ impl UtpHeader {
 
                     #[allow(unused)]
                     {
-                        next_ext_pos = offset + 1;
+                        next_ext_pos = offset;
                     }
                     offset += 2 + payload.len();
                 }
